@@ -177,7 +177,9 @@ def check(case):
                 records.append((resid, rn, an, len(records) + 1) + tuple(float(c) for c in coords[k]))
                 k += 1
         instances.append((nm, coords, rids))
-    gro = env.fresh_path(".gro")
+    # (a fifth of the systems are stored in a coordinate format the user registered himself)
+    from vlib.build import custom_coordinate_format
+    gro = env.fresh_path("." + custom_coordinate_format() if case["seed"] % 5 == 0 else ".gro")
     indep.write_gro(gro, case["title"], records, np.array(case["box"]))
     itp = {}
     for nm in case["load"]:
